@@ -5,10 +5,14 @@ compaction.go, sstable_manager.go (reflectCompactionResult), recovery.go, wal/ap
 
 The disk holds three kinds of objects:
 * table directories `sstable_%015d`, kept in name (= number) order.  A directory is either `complete cells`
-  (index, data, bloom and a non-empty meta.pb.bin are all there: the reader loads it) or `part hasMeta`:
-  it exists but does not load — `part false` = meta.pb.bin missing or empty (what an interrupted flush leaves:
-  the metadata is written last; `isUnfinishedTable`), `part true` = the metadata is there but another file is
-  gone (a half-executed RemoveAll of a finished table);
+  = the table reader LOADS it and it shows `cells`, or `part hasMeta` = it exists but does NOT load —
+  `part false`: meta.pb.bin missing or empty (`isUnfinishedTable`: recovery removes it), `part true`: the metadata
+  is there but another file is gone (a half-executed RemoveAll of a finished table; recovery fails on it).
+  QUIRK (as coded): the reader does not need the metadata.  A directory whose index.rio and data.rio have their
+  file headers loads even while meta.pb.bin is still empty — as a "version 0" table that shows whatever the
+  version-0 reader makes of the files (nothing for header-only files, mis-parsed values otherwise).  Such a
+  directory is `complete junk` here (event `tblLoadable`); recovery keeps it as a live table.  A table writer goes
+  through such states between creating its files and writing the metadata (the last write);
 * WAL files `wal/%06d.wal` in number order: header written or not, the complete records, and whether a piece
   of a further record follows (torn tail);
 * compaction directories `sstable_compaction*`: the table being written and the success flag file
@@ -118,6 +122,7 @@ inductive Ev where
   | walUnlink (n : Nat)
   | tblMkdir (g : Nat)
   | tblProgress (g : Nat)                    -- any create/write that leaves the table incomplete
+  | tblLoadable (g : Nat) (cells : Layer)    -- files have headers / data, metadata still empty: loads as a version-0 table
   | tblComplete (g : Nat) (cells : Layer)    -- the metadata write (the last one of a table writer)
   | compMkdir (id : Nat)
   | compProgress (id : Nat)
@@ -143,6 +148,7 @@ def applyEv (d : Disk) : Ev → Disk
   | .walUnlink n => { d with wal := eraseW n d.wal }
   | .tblMkdir g => { d with tables := insertT g (.part false) d.tables }
   | .tblProgress _ => d
+  | .tblLoadable g cells => { d with tables := updT g (fun _ => .complete cells) d.tables }
   | .tblComplete g cells => { d with tables := updT g (fun _ => .complete cells) d.tables }
   | .compMkdir id =>
     if d.comps.any (·.id == id) then d else { d with comps := d.comps ++ [{ id := id }] }
@@ -300,21 +306,30 @@ def cleanRun : Nat → Disk → List Ev
 
 def cleanEvents (d : Disk) : List Ev := cleanRun (mu d) d
 
-def phase3Events (d : Disk) : List Ev :=
+/-- an unfinished table that already loads only shows keys of the store being flushed (its index is a prefix of
+the final index); what it shows for them is unspecified (`junk`, supplied from outside) -/
+def restrictTo (r : Layer) (junk : Layer) : Layer := junk.filter fun p => (r.get p.1).isSome
+
+/-- the loadable-but-unfinished states a table writer for the store `r` passes through -/
+def junkEvs (g : Nat) (r : Layer) (junks : List Layer) : List Ev := junks.map fun j => Ev.tblLoadable g (restrictTo r j)
+
+def phase3Events (d : Disk) (junks : List Layer := []) : List Ev :=
   (if d.walDir then [] else [.walDirCreate]) ++
   if !walReadable d.wal then [] else
   let g := maxGen (tblsOf d.tables)
   let ms := walMuts d.wal
-  (if ms.isEmpty then [] else [.tblMkdir (g + 1), .tblProgress (g + 1), .tblComplete (g + 1) (applyMuts [] ms)]) ++
+  (if ms.isEmpty then [] else [.tblMkdir (g + 1), .tblProgress (g + 1)] ++ junkEvs (g + 1) (applyMuts [] ms) junks ++
+      [.tblComplete (g + 1) (applyMuts [] ms)]) ++
   -- the log files go oldest first, then the directory is removed and re-created with a fresh file
   d.wal.map (fun f => Ev.walUnlink f.num) ++ [.walDirRemove, .walDirCreate, .walCreate 0, .walHeader 0]
 
-/-- the calls `Open` makes on this disk, in order -/
-def recoverEvents (d : Disk) : List Ev :=
+/-- the calls `Open` makes on this disk, in order (`junks`: what the table written by the recovery flush is seen
+to load as before its metadata is written) -/
+def recoverEvents (d : Disk) (junks : List Layer := []) : List Ev :=
   cleanEvents d ++
   match phase2 (phase1 d) with
   | .error _ => []
-  | .ok d2 => phase3Events d2
+  | .ok d2 => phase3Events d2 junks
 
 /-! ## sessions at event granularity
 
@@ -332,12 +347,12 @@ structure Vol where
   deriving Repr
 
 /-- `executeFlush` -/
-def flushEvs (v : Vol) : List Ev × Vol :=
+def flushEvs (v : Vol) (junks : List Layer := []) : List Ev × Vol :=
   if !v.s.flushPending then ([], v)
   else if v.s.r.isEmpty then ([], { v with s := flushStep v.s, walOld := none })   -- skipped: the WAL file stays
   else
     let g := v.s.gen + 1
-    ([.tblMkdir g, .tblProgress g, .tblComplete g v.s.r] ++
+    ([.tblMkdir g, .tblProgress g] ++ junkEvs g v.s.r junks ++ [.tblComplete g v.s.r] ++
        (match v.walOld with | some n => [.walUnlink n] | none => []),
      { v with s := flushStep v.s, walOld := none })
 
@@ -346,8 +361,8 @@ def drainEvs (c : Nat) (q : List Mutation) : List Ev := q.flatMap fun m => [.wal
 
 /-- `rotateWalAndFlushMemstore`: (the flusher finishes the previous store,) the current file is closed — which
 writes out its buffer —, the next file is created with its header, the write store is handed over -/
-def rotateEvs (v : Vol) : List Ev × Vol :=
-  let (e1, v1) := flushEvs v
+def rotateEvs (v : Vol) (junks : List Layer := []) : List Ev × Vol :=
+  let (e1, v1) := flushEvs v junks
   (e1 ++ drainEvs v1.walCur v1.queue ++
      [.walClose v1.walCur, .walCreate (v1.walCur + 1), .walHeader (v1.walCur + 1)],
    { s := rotate v.s, walCur := v1.walCur + 1, walOld := some v1.walCur, queue := [] })
@@ -386,6 +401,7 @@ structure AStep where
   st : Step
   drain : Nat := 0
   torn : Bool := false
+  junk : List Layer := []   -- what unfinished tables written during this step are seen to load as (any)
   deriving Repr
 
 /-- the mutation a client call logs, if the call is accepted in this state -/
@@ -407,10 +423,11 @@ def stepRotates (s : State) : Step → Bool
   | .close => usable s
   | _ => false
 
-def writeEvs (async : Bool) (v : Vol) (m : Mutation) (rot : Bool) (drain : Nat) (torn : Bool) : List Ev × Vol :=
+def writeEvs (async : Bool) (v : Vol) (m : Mutation) (rot : Bool) (drain : Nat) (torn : Bool)
+    (junks : List Layer := []) : List Ev × Vol :=
   let (e1, v1) := logEvs async { v with s := { v.s with w := Mutation.apply v.s.w m } } m drain torn
   if rot then
-    let (e2, v2) := rotateEvs v1
+    let (e2, v2) := rotateEvs v1 junks
     (e1 ++ e2, v2)
   else (e1, v1)
 
@@ -419,35 +436,35 @@ def fsStep (async : Bool) (d : Disk) (v : Vol) (a : AStep) : List Ev × Vol :=
   match a.st with
   | .putB k val rot =>
     (match stepMut v.s (.putB k val rot) with
-     | some m => writeEvs async v m rot a.drain a.torn
+     | some m => writeEvs async v m rot a.drain a.torn a.junk
      | none => ([], v))
   | .putS k val rot =>
     (match stepMut v.s (.putS k val rot) with
-     | some m => writeEvs async v m rot a.drain a.torn
+     | some m => writeEvs async v m rot a.drain a.torn a.junk
      | none => ([], v))
   | .delB k =>
     (match stepMut v.s (.delB k) with
-     | some m => writeEvs async v m false a.drain a.torn
+     | some m => writeEvs async v m false a.drain a.torn a.junk
      | none => ([], v))
   | .delS k =>
     (match stepMut v.s (.delS k) with
-     | some m => writeEvs async v m false a.drain a.torn
+     | some m => writeEvs async v m false a.drain a.torn a.junk
      | none => ([], v))
   | .get _ => ([], v)
-  | .rotate => if usable v.s then rotateEvs v else ([], v)
-  | .flush => flushEvs v
+  | .rotate => if usable v.s then rotateEvs v a.junk else ([], v)
+  | .flush => flushEvs v a.junk
   | .compact sizes => if usable v.s then compactEvs d v sizes else ([], v)
   | .close =>
     if usable v.s then
-      let (e1, v1) := rotateEvs v
-      let (e2, v2) := flushEvs v1
+      let (e1, v1) := rotateEvs v a.junk
+      let (e2, v2) := flushEvs v1 a.junk
       (e1 ++ e2 ++ [.walClose v2.walCur], { v2 with s := { v2.s with closed := true } })
     else ([], v)
   | .reopen o =>
     if v.s.closed || !v.s.isOpen then
       match recover d o with
-      | .ok (_, s') => (recoverEvents d, { s := s', walCur := 0, walOld := none, queue := [] })
-      | .error _ => (recoverEvents d, v)
+      | .ok (_, s') => (recoverEvents d a.junk, { s := s', walCur := 0, walOld := none, queue := [] })
+      | .error _ => (recoverEvents d a.junk, v)
     else ([], v)
 
 /-- the per-step event lists of a session -/
